@@ -93,6 +93,7 @@ STAGES = {
 }
 
 STAGES["C17"].append(S("fuzz", "^$", tiers=("thorough",), shards=(1, 1), fuzz={"target": "^FuzzC17$", "time": {"quick": "10s", "thorough": "120s"}}, timeout=("10m", "30m")))
+STAGES["C14"].append(S("fuzz", "^$", tiers=("thorough",), shards=(1, 1), fuzz={"target": "^FuzzC14$", "time": {"quick": "10s", "thorough": "240s"}}, timeout=("10m", "30m")))
 STAGES["C19"].append(S("fuzz", "^$", tiers=("thorough",), shards=(1, 1), fuzz={"target": "^FuzzC19$", "time": {"quick": "10s", "thorough": "180s"}}, timeout=("10m", "30m")))
 
 for _pid, _tests in {"C01": ["TestC01"], "C02": ["TestC02"], "C03": ["TestC03", "TestC03Raw"], "C04": ["TestC04"], "C06": ["TestC06Mixed"], "C08": ["TestC08"],
